@@ -9,17 +9,25 @@
 (* NeverPropagatesIntoHA, LoadErrorUnloadsOnlyThatFile.                                          *)
 (* Flags = named deviations: FaultCore's "dm-trigger-func-uncaught" (what the code does), and    *)
 (* the model-level mutants "expr-uncaught", "entry-uncaught-anywhere", "load-error-stops-all",   *)
-(* "logs-twice", used by the driver to show that each invariant can fail.                        *)
+(* "logs-twice", "deliverer-logs-too" (the machinery that hands a wait expression's exception to  *)
+(* the waiting function also logs it), used by the driver to show that each invariant can fail.  *)
+(* User code may handle its own fault (guard = "chain": inside the faulting call chain, "waiter": *)
+(* the waiting function around task.wait_until): then nothing may be logged and the run goes on.  *)
 EXTENDS FaultCore, TLC
 CONSTANTS Sub, Flags, MaxOcc
 
 Runtime == Entries \ {"load", "import-load"}
 ExprEntries == {"trigger-expr", "filter-expr", "active-expr"}
-LayersOf(e) == IF e \in {"load", "import-load"} THEN <<"entry", "ha">>
-               ELSE IF e \in ExprEntries THEN <<"entry", "loop", "ha">>
-               ELSE <<"entry", "runcoro", "ha">>
-HandlerAt(e, layer) ==
-  CASE layer = "entry"   -> /\ CatchLayer(e, Sub, Flags) = "entry"
+LayersOf(e) == IF e \in {"load", "import-load"} THEN <<"user", "entry", "ha">>
+               ELSE IF e \in ExprEntries THEN <<"user", "entry", "loop", "ha">>
+               ELSE IF e \in WaitEntries THEN <<"user", "deliver", "waiter", "entry", "runcoro", "ha">>
+               ELSE <<"user", "entry", "runcoro", "ha">>
+Guards(e) == IF e \in WaitEntries THEN {"none", "chain", "waiter"} ELSE {"none", "chain"}
+HandlerAt(e, layer, guard) ==
+  CASE layer = "user"    -> guard = "chain"
+    [] layer = "deliver" -> FALSE
+    [] layer = "waiter"  -> guard = "waiter"
+    [] layer = "entry"   -> /\ CatchLayer(e, Sub, Flags) = "entry"
                             /\ ~("expr-uncaught" \in Flags /\ e \in ExprEntries)
                             /\ ~("entry-uncaught-anywhere" \in Flags /\ e = "service-func")
     [] layer = "runcoro" -> ~("entry-uncaught-anywhere" \in Flags)
@@ -31,42 +39,52 @@ VARIABLES loaded,     \* files whose global context exists
           serving,    \* entry point of "a" -> its trigger / service / loop is alive
           log,        \* records carrying an exception report: sequence of logger classes "own" | "integration"
           ha,         \* "ok" | "raised": an exception reached Home Assistant
-          act,        \* activation in progress: [e, pos] (pos = index into LayersOf(e)) or Idle
-          faults,     \* faults raised so far
+          act,        \* activation in progress: [e, pos, guard] (pos = index into LayersOf(e)) or Idle
+          faults,     \* faults raised so far that user code does not handle itself
+          handled,    \* faults raised so far that user code handles itself
           occ         \* occurrences so far (bound)
-vars == <<loaded, everB, serving, log, ha, act, faults, occ>>
-Idle == [e |-> "-", pos |-> 0]
+vars == <<loaded, everB, serving, log, ha, act, faults, handled, occ>>
+Idle == [e |-> "-", pos |-> 0, guard |-> "none"]
 
 Init == /\ loaded = {} /\ everB = FALSE /\ serving = [e \in Runtime |-> FALSE] /\ log = <<>> /\ ha = "ok"
-        /\ act = Idle /\ faults = 0 /\ occ = 0
+        /\ act = Idle /\ faults = 0 /\ handled = 0 /\ occ = 0
 
 LoadOk(f) == /\ act = Idle /\ f \notin loaded /\ occ < MaxOcc
              /\ loaded' = loaded \cup {f} /\ everB' = (everB \/ f = "b")
              /\ serving' = IF f = "a" THEN [e \in Runtime |-> TRUE] ELSE serving
-             /\ occ' = occ + 1 /\ UNCHANGED <<log, ha, act, faults>>
+             /\ occ' = occ + 1 /\ UNCHANGED <<log, ha, act, faults, handled>>
 \* user code at module level of "a" (or of a module it imports) raises while the file loads
-LoadFaulty(e) == /\ act = Idle /\ "a" \notin loaded /\ occ < MaxOcc /\ e \in {"load", "import-load"}
-                 /\ act' = [e |-> e, pos |-> 1] /\ faults' = faults + 1 /\ occ' = occ + 1
-                 /\ UNCHANGED <<loaded, everB, serving, log, ha>>
+LoadFaulty(e, g) == /\ act = Idle /\ "a" \notin loaded /\ occ < MaxOcc /\ e \in {"load", "import-load"} /\ g \in Guards(e)
+                    /\ act' = [e |-> e, pos |-> 1, guard |-> g] /\ occ' = occ + 1
+                    /\ faults' = faults + (IF g = "none" THEN 1 ELSE 0) /\ handled' = handled + (IF g = "none" THEN 0 ELSE 1)
+                    /\ UNCHANGED <<loaded, everB, serving, log, ha>>
 Benign(e) == /\ act = Idle /\ "a" \in loaded /\ e \in Runtime /\ serving[e] /\ occ < MaxOcc
-             /\ occ' = occ + 1 /\ UNCHANGED <<loaded, everB, serving, log, ha, act, faults>>
-Fault(e) == /\ act = Idle /\ "a" \in loaded /\ e \in Runtime /\ serving[e] /\ occ < MaxOcc
-            /\ act' = [e |-> e, pos |-> 1] /\ faults' = faults + 1 /\ occ' = occ + 1
-            /\ UNCHANGED <<loaded, everB, serving, log, ha>>
+             /\ occ' = occ + 1 /\ UNCHANGED <<loaded, everB, serving, log, ha, act, faults, handled>>
+Fault(e, g) == /\ act = Idle /\ "a" \in loaded /\ e \in Runtime /\ serving[e] /\ occ < MaxOcc /\ g \in Guards(e)
+               /\ act' = [e |-> e, pos |-> 1, guard |-> g] /\ occ' = occ + 1
+               /\ faults' = faults + (IF g = "none" THEN 1 ELSE 0) /\ handled' = handled + (IF g = "none" THEN 0 ELSE 1)
+               /\ UNCHANGED <<loaded, everB, serving, log, ha>>
 \* the exception is at layer LayersOf(e)[pos]: caught there or passed on
 Travel == /\ act # Idle
           /\ LET e == act.e  layer == LayersOf(e)[act.pos] IN
-             IF ~HandlerAt(e, layer) THEN act' = [act EXCEPT !.pos = @ + 1] /\ UNCHANGED <<loaded, everB, serving, log, ha, faults, occ>>
+             IF ~HandlerAt(e, layer, act.guard)
+             THEN /\ act' = [act EXCEPT !.pos = @ + 1]
+                  /\ log' = IF layer = "deliver" /\ "deliverer-logs-too" \in Flags THEN Append(log, "own") ELSE log
+                  /\ UNCHANGED <<loaded, everB, serving, ha, faults, handled, occ>>
              ELSE /\ act' = Idle
                   /\ log' = CASE layer = "entry" -> log \o (IF "logs-twice" \in Flags /\ e = "done-callback" THEN <<"own", "own">> ELSE <<"own">>)
                               [] layer \in {"runcoro", "loop"} -> Append(log, "integration")
-                              [] OTHER -> log
+                              [] OTHER -> log                                        \* user code handled it: nothing is logged
                   /\ ha' = IF layer = "ha" THEN "raised" ELSE ha
-                  /\ serving' = IF layer = "loop" THEN [serving EXCEPT ![e] = FALSE] ELSE serving
-                  /\ loaded' = IF e \in {"load", "import-load"} /\ "load-error-stops-all" \in Flags THEN {} ELSE loaded   \* a load error leaves "a" unloaded
-                  /\ UNCHANGED <<everB, faults, occ>>
+                  /\ serving' = IF layer = "loop" THEN [serving EXCEPT ![e] = FALSE]
+                                ELSE IF layer = "user" /\ e \in {"load", "import-load"} THEN [x \in Runtime |-> TRUE]
+                                ELSE serving
+                  \* a load error leaves "a" unloaded; a fault the module-level code handles itself does not stop the load
+                  /\ loaded' = IF e \in {"load", "import-load"} /\ layer = "user" THEN loaded \cup {"a"}
+                               ELSE IF e \in {"load", "import-load"} /\ "load-error-stops-all" \in Flags THEN {} ELSE loaded
+                  /\ UNCHANGED <<everB, faults, handled, occ>>
 Next == \/ \E f \in {"a", "b"} : LoadOk(f)
-        \/ \E e \in Entries : LoadFaulty(e) \/ Benign(e) \/ Fault(e)
+        \/ \E e \in Entries : Benign(e) \/ \E g \in {"none", "chain", "waiter"} : LoadFaulty(e, g) \/ Fault(e, g)
         \/ Travel
 Spec == Init /\ [][Next]_vars
 
@@ -77,5 +95,6 @@ OthersUndisturbed == everB => "b" \in loaded
 NeverPropagatesIntoHA == ha = "ok"
 LoadErrorUnloadsOnlyThatFile == act # Idle /\ act.e \in {"load", "import-load"} => "a" \notin loaded
 \* witnesses (to be violated)
-W_NoFaultCaught == ~(act = Idle /\ faults > 1 /\ "a" \in loaded /\ "b" \in loaded)
+\* reachable: escaped faults logged once each, faults the script handled itself logged nowhere, everything still loaded
+W_NoFaultCaught == ~(act = Idle /\ faults > 1 /\ handled > 0 /\ Len(log) = faults /\ "a" \in loaded /\ "b" \in loaded)
 =============================================================================
